@@ -15,6 +15,22 @@ import (
 
 var LinearCodec = linearcodec.NewDefault()
 
+// UnmarshalExact unmarshals [dest] from [src] with [LinearCodec] and returns
+// [ErrTrailingBytes] if [src] is not consumed entirely. linearcodec's
+// UnmarshalFrom stops at the end of the value and ignores anything after it,
+// so parsers that must accept exactly one encoding per value (actions and auth
+// inside a transaction) should use this function.
+func UnmarshalExact(src []byte, dest interface{}) error {
+	p := &wrappers.Packer{Bytes: src}
+	if err := LinearCodec.UnmarshalFrom(p, dest); err != nil {
+		return err
+	}
+	if p.Offset != len(src) {
+		return fmt.Errorf("%w: %d of %d bytes consumed", ErrTrailingBytes, p.Offset, len(src))
+	}
+	return nil
+}
+
 // Packer is a wrapper struct for the Packer struct
 // from avalanchego/utils/wrappers/packing.go. A bool [required] parameter is
 // added to many unpacking methods, which signals the packer to add an error
